@@ -49,6 +49,7 @@ type Contract struct {
 	Ensures  []Clause
 	Loops    map[int]*LoopSpec
 	Sites    []SiteSpec
+	Returns  []SiteSpec // "at return : assert E": checked at every return statement where E's variables are in scope
 	Modifies []string
 	HasMod   bool
 	Track    []string // callee patterns whose call state is tracked as ghost (called/ret/argof)
@@ -500,8 +501,23 @@ func (cs *ContractSet) parseContractText(file, pkgPath, text string) {
 		case "at":
 			// at call PATTERN : assert EXPR
 			w2, r2 := splitWord(rest)
+			if w2 == "return" {
+				// at return : assert EXPR
+				r2 = strings.TrimSpace(r2)
+				if !strings.HasPrefix(r2, ": assert ") {
+					fail(ln, "expected 'at return : assert EXPR'")
+					continue
+				}
+				cl, err := parseClause(strings.TrimSpace(strings.TrimPrefix(r2, ": assert ")))
+				if err != nil {
+					fail(ln, "%v", err)
+					continue
+				}
+				cur.Returns = append(cur.Returns, SiteSpec{Pattern: "return", Kind: "assert", Cl: cl, Props: cur.curProps})
+				continue
+			}
 			if w2 != "call" {
-				fail(ln, "expected 'at call'")
+				fail(ln, "expected 'at call' or 'at return'")
 				continue
 			}
 			k := strings.Index(r2, " : ")
